@@ -20,7 +20,7 @@ from .model import real_body, u
 PURE_FUNCS = {"set", "frozenset", "len", "dict", "list", "tuple", "sorted", "int", "str", "bool", "isinstance", "range", "enumerate", "zip",
               "min", "max", "sum", "any", "all", "reversed", "iter", "issubclass", "hasattr", "type", "abs", "float", "callable", "divmod", "round",
               "ord", "chr", "bytes", "repr", "id", "replace"}      # (dataclasses.replace builds a new object)
-PURE_METHODS = {"values", "items", "keys", "get", "copy", "groups", "group", "startswith", "endswith", "join", "index", "count"}
+PURE_METHODS = {"values", "items", "keys", "get", "copy", "groups", "group", "startswith", "endswith", "join", "index", "count", "inp", "out"}
 
 
 class _Subst(ast.NodeTransformer):
@@ -121,11 +121,19 @@ def is_reference(e) -> bool:
 SCALAR_FUNCS = {"len", "int", "str", "bool", "isinstance", "min", "max", "sum", "any", "all", "float", "abs"}
 
 
+# methods of the frozen handle classes that build another frozen handle (Node.inp / Node.out / Node.port, Wire.out_port on a port)
+VALUE_HANDLE_METHODS = {"inp", "out", "port"}
+
+
 def is_scalar(e) -> bool:
     """value semantics: evaluating it twice gives interchangeable results (numbers, booleans, strings built from references)"""
     if isinstance(e, ast.Constant):
         return True
     if isinstance(e, ast.Call):
+        # a port handle made from a node handle (frozen value objects: two of them with the same content are interchangeable)
+        if isinstance(e.func, ast.Attribute) and e.func.attr in VALUE_HANDLE_METHODS and not e.keywords and is_reference(e.func.value) \
+                and all(is_scalar(a) or is_reference(a) for a in e.args):
+            return True
         return isinstance(e.func, ast.Name) and e.func.id in SCALAR_FUNCS and not e.keywords and all(is_scalar(a) or is_reference(a) or _pure_arg(a) for a in e.args)
     if isinstance(e, ast.BinOp):
         return (is_scalar(e.left) or is_reference(e.left)) and (is_scalar(e.right) or is_reference(e.right)) and is_scalar_op(e)
